@@ -70,9 +70,12 @@ def run(ctx):
         ctx.obligations("NGF.Props.C14")
         # permutation invariance of the pipeline fragment model (Model/Pipeline.gen); imported by Props/C14.lean
         ctx.obligations("NGF.Props.C14Pipeline")
+        # the same for the layered models (references, endpoints, TLS, statuses, renderer port order)
+        ctx.obligations("NGF.Props.C14Layers")
     if ctx.tier == "thorough":
         ctx.leanchecker("NGF.Props.C14")
         ctx.leanchecker("NGF.Props.C14Pipeline")
+        ctx.leanchecker("NGF.Props.C14Layers")
 
     quick = ctx.tier == "quick"
     jobs = []  # (label, args)
@@ -81,10 +84,12 @@ def run(ctx):
         for fn in sorted(os.listdir(cdir)):
             if fn.endswith(".json"):
                 jobs.append(("corpus:" + fn, ["-seed", ctx.seed, "-reps", 16 if quick else 48, "-replay", os.path.join(cdir, fn)]))
+    layer_jobs = []  # stream `pipe`, layered families (refs / tls / base): references, endpoints, TLS, statuses per order
     pipe_jobs = []  # stream `pipe`: in-fragment states (harness/c02 generator) in several arrival orders
     if quick:
         jobs.append(("gen", ["-seed", ctx.seed, "-n", 200, "-reps", 8]))
         pipe_jobs.append(("pipe", ["-pipeline", "-seed", ctx.seed, "-n", 120, "-orders", 5]))
+        layer_jobs.append(("layers", ["-pipelayers", "-seed", ctx.seed, "-n", 100, "-orders", 4]))
     else:
         for k in range(12):
             jobs.append((f"gen{k}", ["-seed", ctx.seed * 1000 + k, "-n", 420, "-reps", 32]))
@@ -92,7 +97,9 @@ def run(ctx):
             jobs.append((f"perm{k}", ["-seed", ctx.seed * 1000 + 500 + k, "-n", 60, "-permall"]))
         for k in range(6):
             pipe_jobs.append((f"pipe{k}", ["-pipeline", "-seed", ctx.seed * 1000 + 700 + k, "-n", 250, "-orders", 8]))
-    jobs += pipe_jobs
+        for k in range(6):
+            layer_jobs.append((f"layers{k}", ["-pipelayers", "-seed", ctx.seed * 1000 + 800 + k, "-n", 200, "-orders", 6]))
+    jobs += pipe_jobs + layer_jobs
 
     results = {}
     with concurrent.futures.ThreadPoolExecutor(max_workers=4 if quick else 14) as ex:
@@ -102,7 +109,7 @@ def run(ctx):
     if not getattr(ctx, "harness_ok", False):
         ctx.broken("harness does not build against the current tree", detail="\n".join(ctx.build_errors))
 
-    pipe_labels = {j[0] for j in pipe_jobs}
+    pipe_labels = {j[0] for j in pipe_jobs + layer_jobs}
     lines, origin = [], []
     for label, args in [(j[0], j[1]) for j in jobs if j[0] not in pipe_labels]:
         for l in results[label][1]:
@@ -284,6 +291,106 @@ def run(ctx):
         ctx.broken("pipe stream is vacuous: no generated scenario is inside the fragment of Model/Pipeline",
                    detail=str(dict(pipe_outside)))
 
+    # ---- stream `pipe`, layered families: the layered models per arrival order
+    lay = collections.Counter()
+    lay_stats = collections.defaultdict(collections.Counter)
+    lay_tags = collections.Counter()
+    lay_why = collections.Counter()
+    lay_lines, lay_origin = [], []
+    for label, args in layer_jobs:
+        for l in results[label][1]:
+            if l.startswith("{"):
+                lay_lines.append(l)
+                lay_origin.append((label, args))
+    lay_answers = ctx.driver("layers", lay_lines) if lay_lines else []
+    for l, (label, args), a in zip(lay_lines, lay_origin, lay_answers):
+        try:
+            d = json.loads(l)
+            a = json.loads(a)
+        except Exception:
+            ctx.broken("layers stream: undecodable harness line or driver answer", detail=l[:300])
+            continue
+        s = d.get("site")
+        if s == "tags":
+            for k, n in d["tags"].items():
+                lay_tags[k] += n
+            continue
+        if s == "panic":
+            panics[d["where"]] += 1
+            continue
+        if s != "pipe":
+            continue
+        rep = {"harness_args": [str(x) for x in args] + ["-only", str(d["sc"])], "scenario": d["sc"], "family": d.get("fam"),
+               "arrivals": [o["arrival"] for o in d["orders"]]}
+        if "error" in a:
+            ctx.broken(f"layers mode could not decode a harness line: {a}", replay=rep)
+            continue
+        fam = a.get("fam", "?")
+        n_orders = len(d["orders"])
+        lay[f"family:{fam}:scenarios"] += 1
+        lay[f"family:{fam}:real_builds"] += n_orders
+        evaluations += n_orders
+        h = hashlib.sha1(json.dumps(d["orders"][0]["flat"], sort_keys=True).encode()).hexdigest()
+        distinct.add(h)
+        nontrivial.add(h)
+        base = a.get("base", {})
+        j = base.get("judge", "")
+        if j and j != "ok":
+            lay["judge_fail"] += 1
+            sig = j.split(" ")[1] if " " in j else "pipeline-arrival-order"
+            ctx.finding(f"C14:{sig}", f"C14 ({fam}) one cluster state, two arrival orders, different result: {j[5:900]}",
+                        dict(rep, detail=j, line=l[:600000]))
+        else:
+            lay["judge_ok"] += 1
+        if a.get("tlsJudge"):
+            lay["judge_fail"] += 1
+            ctx.finding("C14:pipeline-arrival-order-changes-tls-config",
+                        f"C14 (tls) one cluster state, two arrival orders, different SSL servers / certificates: {a['tlsJudge'][:900]}",
+                        dict(rep, detail=a["tlsJudge"], line=l[:600000]))
+        if fam != "tls":
+            if base.get("inFragment") and not base.get("tie"):
+                lay["gen:tied_orders"] += base.get("orders", 0)
+                validated += base.get("orders", 0)
+            elif base.get("tie"):
+                diffs += 1
+                ctx.broken("layers stream: Pipeline.gen and the real generator disagree for an arrival order: " + base["tie"][:600],
+                           replay=dict(rep, diff=base["tie"], line=l[:600000]))
+            if base.get("thm"):
+                ctx.broken("a C14Pipeline theorem is false on a generated input: " + base["thm"][:600], kind="obligation",
+                           replay=dict(rep, detail=base["thm"], line=l[:600000]))
+        for part, what in (("refs", "PipelineRefs.genR (references)"), ("ends", "PipelineEndpoints.httpUpstreams (endpoints)"),
+                           ("tls", "PipelineTls.genT (TLS)"), ("status", "PipelineStatus (statuses)")):
+            x = a.get(part)
+            if x is None:
+                continue
+            if x.get("why"):
+                lay[f"{part}:outside"] += 1
+                lay_why[f"{part}: {x['why'][:60]}"] += 1
+                continue
+            lay[f"{part}:scenarios"] += 1
+            for k, v in (x.get("stats") or {}).items():
+                lay_stats[part][k] += v
+            if x.get("tie"):
+                lay[f"{part}:tie_differs"] += 1
+                diffs += 1
+                if lay[f"{part}:tie_differs"] <= 2:
+                    ctx.broken(f"layers stream: {what} and the real output disagree for an arrival order: " + x["tie"][:700],
+                               replay=dict(rep, diff=x["tie"], line=l[:600000]))
+            else:
+                lay[f"{part}:tied_orders"] += x.get("tied", 0)
+                validated += x.get("tied", 0)
+            if x.get("hyps"):
+                lay[f"{part}:theorem_hypotheses_hold"] += 1
+                if x.get("thm"):
+                    lay[f"{part}:theorem_falsified"] += 1
+                    ctx.broken("a C14Layers theorem is false on a generated input: " + x["thm"][:700], kind="obligation",
+                               replay=dict(rep, detail=x["thm"], line=l[:600000]))
+    if layer_jobs and getattr(ctx, "harness_ok", False):
+        for part in ("refs", "ends", "tls", "status"):
+            if lay[f"{part}:tied_orders"] == 0 and lay[f"{part}:tie_differs"] == 0:
+                ctx.broken(f"layers stream is vacuous for the {part} layer: no scenario inside its fragment",
+                           detail=str(dict(lay_why)))
+
     if sum(panics.values()) > max(3, sites["det"] // 20):
         ctx.broken(f"too many scenarios panicked (not this property's subject, but nothing was judged): {dict(panics)}")
     if sites["det"] == 0:
@@ -310,6 +417,10 @@ def run(ctx):
         "pipeline_arrival_orders": dict(sorted(pipe.items())),
         "pipeline_arrival_orders_generator_tags": dict(sorted(pipe_tags.items())),
         "pipeline_arrival_orders_outside_fragment_reasons": dict(pipe_outside),
+        "layers_arrival_orders": dict(sorted(lay.items())),
+        "layers_arrival_orders_stats": {k: dict(sorted(v.items())) for k, v in sorted(lay_stats.items())},
+        "layers_arrival_orders_generator_tags": dict(sorted(lay_tags.items())),
+        "layers_arrival_orders_outside_reasons": dict(lay_why),
         "panics_in_code_under_test": dict(panics),
         "jobs": [j[0] for j in jobs],
     }, assumptions=[
